@@ -286,6 +286,15 @@ def check_case(T, sc, stats, tier):
         stats["runs"] += 1
         if rc != 0 or out != data:
             return ("round trip failed: rc=%d identical=%s stderr=%s" % (rc, out == data, se.decode("utf-8", "replace")[-200:]), {"step": "roundtrip"})
+        # the password is the same password whichever way it reaches the tool: decrypt through the other channel
+        other = dict(sc)
+        other["pwmode"] = "k" if sc["pwmode"] == "p" else "p"
+        rc, se, out = decrypt(T, other, W.sub(), enc)
+        stats["runs"] += 1
+        if rc != 0 or out != data:
+            names = {"p": "-p", "k": "a key file", "K": "a key file without a final newline"}
+            return ("a file encrypted with the password given by %s does not decrypt with the same password given by %s: rc=%d identical=%s stderr=%s"
+                    % (names[sc["pwmode"]], names[other["pwmode"]], rc, out == data, se.decode("utf-8", "replace")[-200:]), {"step": "cross-channel"})
         # several files on one command line, and the standard-input / standard-output form
         e = multi_file(T, sc, W, stats)
         if e:
@@ -607,7 +616,11 @@ def run_check(tier):
     sizes = st.one_of(st.sampled_from([0, 1, 15, 16, 17, 31, 33, 100, 255, 600] + list(range(BUFSIZ - 17, BUFSIZ + 18, 2)) + [2 * BUFSIZ - 1, 2 * BUFSIZ, 2 * BUFSIZ + 1, BUFSIZ - 16, 3 * BUFSIZ - 16, 4 * BUFSIZ - 16, 8 * BUFSIZ - 17, 8 * BUFSIZ - 16, 8 * BUFSIZ, 8 * BUFSIZ + 1, 100003]),
                       st.integers(0, 600), st.integers(0, 65536), st.integers(65536, 150000))
     pwchars = st.characters(min_codepoint=33, max_codepoint=126)
-    case = st.fixed_dictionaries({"size": sizes, "cseed": st.integers(0, 1 << 20), "password": st.text(pwchars, min_size=1, max_size=200),
+    # half of the passwords are built from pieces that mean something to C string handling, option parsing or a shell
+    # (the tools must treat the password as opaque bytes): conversion specifications, backslashes, quotes, leading dashes
+    pieces = ["%", "%%", "%s", "%d", "%n", "%x", "%5$s", "%c", "%%%", "\\", "\\n", "-", "--", "-p", "#", "'", '"', "$HOME", "*", "~", ";", "a", "Z", "0", "pass", "word"]
+    passwords = st.one_of(st.text(pwchars, min_size=1, max_size=200), st.lists(st.sampled_from(pieces), min_size=1, max_size=24).map("".join))
+    case = st.fixed_dictionaries({"size": sizes, "cseed": st.integers(0, 1 << 20), "password": passwords,
                                   "pwmode": st.sampled_from(["p", "k", "K"]), "naming": st.sampled_from(["o", "suffix"]),
                                   "name": st.text(st.characters(min_codepoint=97, max_codepoint=122), min_size=6, max_size=24).map(lambda s: s + ".dat")})
     nex = 16 if tier == "quick" else 150
